@@ -4,7 +4,7 @@ from ..core import Violation
 from .. import pipeline, recvfeed, protocol, edgefeed, netfeed
 
 ID = 'C03'
-PROP_FILES = ['C03', 'C03Join', 'C03JoinMulti', 'EdgeRecv', 'EdgeSend', 'C03Edge', 'C03EdgeLive', 'ChainSend', 'ChainRecv', 'C03Net', 'C03Tree']
+PROP_FILES = ['C03', 'C03Join', 'C03JoinMulti', 'EdgeRecv', 'EdgeSend', 'C03Edge', 'C03EdgeLive', 'ChainSend', 'ChainRecv', 'C03Net', 'C03Tree', 'RejoinRecv', 'C03Rejoin']
 MODULES = ['OFModel.Zmq.Receiver', 'OFModel.Zmq.Sender', 'OFModel.Zmq.Pair', 'OFModel.Zmq.PairReq', 'OFModel.Zmq.Net', 'OFModel.FilterLoop', 'OFModel.Gen.Facts']
 RULE = ('MQNet pipelines (real MQ/ZMQSender/ZMQReceiver objects, thread-less event loop, virtual time): topologies drawn from chain / tee / tee-rejoin (2-3 branches) / '
         'independent join with 3-7 filters, behaviours from {pass, None on chosen ids (not on rejoined branches), {}, lone Frame, callable, add/rename topic}, '
@@ -20,7 +20,7 @@ ASSUMPTIONS = ['partial: stage A component theorems are proved (publish-or-disca
                'of exactly one frame per subscribed topic of that source\'s block of the returned id (never a partial block), all carrying the returned id, the payload of the wire message and the mapped name, '
                '(ii) the returned ids are exactly the ids published by every source, none skipped below the frontier.  Hypothesis on the network: the block as delivered = the sent block filtered by the SUB prefixes '
                '(IsBlock / isBlock_of_sent; frames are abstracted through decodeTopic, the ZeroMQ prefix match itself is not modelled).  NOT proved: ephemeral side sources, balanced receivers, recv(state) jumps, '
-               'an explicit subscription with an empty list, progress (liveness) of joins, and the DAG refinement (C) for rejoins / joins - that part of the pipeline level is explored, with the composition reference as oracle',
+               'an explicit subscription with an empty list, progress (liveness) of joins, and the DAG refinement (C) for independent joins and rejoins with skipping branches - that part of the pipeline level is explored, with the composition reference as oracle',
                'EDGE refinement (stage B) PROVED on the closed edge model OFModel/Zmq/PairReq.lean (OFProps/C03Edge.lean, C03EdgeLive.lean, helper files EdgeRecv/EdgeSend): one source-filter publisher with '
                'outs_required=[R], one synchronised all-topics consumer R, a flag subUp (PUB/SUB connection established; while false every publish is lost for R, requests always get through; connectSub at any time, late or never), '
                'a second client X sending any ephemeral request / any synchronised request for an already published id at any time; single topic main per frame set, frame k has payload k; every call has timeout 0; no restarts; '
@@ -30,7 +30,7 @@ ASSUMPTIONS = ['partial: stage A component theorems are proved (publish-or-disca
                '_tracked_only_when_heard (handshake invariant, every event), C03_edge_progress (pair alone, connection up: [recv, send, recv, send, recv] returns frame n; a schedule is exhibited, fairness not proved), kernel-evaluated negative witnesses '
                'C03_edge_needs_required (required=[] + second client) and C03_edge_needs_new_flag (new flag dropped, pair alone) on the same step function, and C03_edge_pair_alone_any_required (in the pair ALONE outs_required is never exercised: '
                'nothing is published before some client is tracked and the only client is tracked only after it heard).  NOT modelled there: MQ.send wrapping frames in a callable (stage A3), multi-topic blocks, HWM, several consumers as full automata, restarts',
-               'stage C PROVED on the network model OFModel/Zmq/Net.lean for CHAINS (C03_net_chain_composition, OFProps/C03Net.lean) and TEES / TREES (C03_net_tree_composition, C03_net_tree_edge, OFProps/C03Tree.lean: node 0 the source, every other node subscribed to ONE earlier node, any number of consumers per publisher): arbitrary process functions whose results are dicts of distinct non-empty topic names (ProcNames), every restart-free schedule of recv i | send i @t (no bound, any clock readings): for every node the log of (id, [(topic, content)]) sets its process() was called with is a PREFIX of the source frames 0..N-1 threaded through the process functions on the path to it (Loop.processFrames normalisation: None drops the frame downstream, {} = empty set, lone Frame = main, callable = its value; hidden topics removed; ids = the source\'s consecutive ids of the surviving frames, handed on unchanged); C03_net_chain_deferred_at_send: the callable is evaluated only in the send that publishes its value (or frees the loop on None). Helper theorems send0_chain (exact outcome of one MQ.send) and call0_chain (single-source consumer over a queue of complete multi-topic blocks).  In Net delivery is immediate and every SUB connection is up from the start, so NO outs_required is needed there (a late consumer finds the blocks in its queue); required matters with the slow joiner, proved at edge level only (PairReq).  NOT proved at stage C: rejoins / independent joins, restarts, loss / HWM / connection timing',
+               'stage C PROVED on the network model OFModel/Zmq/Net.lean for CHAINS (C03_net_chain_composition, OFProps/C03Net.lean) and TEES / TREES (C03_net_tree_composition, C03_net_tree_edge, OFProps/C03Tree.lean: node 0 the source, every other node subscribed to ONE earlier node, any number of consumers per publisher): arbitrary process functions whose results are dicts of distinct non-empty topic names (ProcNames), every restart-free schedule of recv i | send i @t (no bound, any clock readings): for every node the log of (id, [(topic, content)]) sets its process() was called with is a PREFIX of the source frames 0..N-1 threaded through the process functions on the path to it (Loop.processFrames normalisation: None drops the frame downstream, {} = empty set, lone Frame = main, callable = its value; hidden topics removed; ids = the source\'s consecutive ids of the surviving frames, handed on unchanged); C03_net_chain_deferred_at_send: the callable is evaluated only in the send that publishes its value (or frees the loop on None). Helper theorems send0_chain (exact outcome of one MQ.send) and call0_chain (single-source consumer over a queue of complete multi-topic blocks).  In Net delivery is immediate and every SUB connection is up from the start, so NO outs_required is needed there (a late consumer finds the blocks in its queue); required matters with the slow joiner, proved at edge level only (PairReq).  TEE-REJOIN (C03_net_rejoin_composition, OFProps/RejoinRecv.lean + C03Rejoin.lean): source, b >= 1 one-relay branches none of which returns None ({} allowed) and each publishing its own topic names, join subscribed to all branches: for every restart-free schedule the sets handed to the join are a PREFIX of: for n = 0,1,2,.. the set with id n holding every branch\'s output for the source\'s n-th surviving frame (all branches, same frame, none skipped, from frame 0); kernel-checked witness C03_net_rejoin_needs_noskip (a skipping branch: the join gets the common ids only), replayed on the real classes in every run.  NOT proved at stage C: rejoins with skipping branches (common ids) or longer branches, a sink below the join, independent joins, restarts, loss / HWM / connection timing',
                'MQNet replaces Filter.loop_once by a 10-line replica around the real MQ object (every call timeout=0, re-armed each poll interval or on arrival); libzmq by the in-process fake',
                'message delays below the 100 ms request interval, lossless channels, no restarts (C03 hypotheses)']
 TRUSTED = ['composition reference = the same Python process functions applied to the source sequence (harness/ofverif/pipeline.py: reference)']
@@ -214,10 +214,11 @@ def chain_campaign(ctx, n):
     trials = [c['trial'] for c in ctx.corpus if c.get('feed') == 'netchain']
     if ctx.replay and ctx.replay.get('case', {}).get('feed') == 'netchain':
         trials = [ctx.replay['case']['trial']]; n = 0
-    for k in range(n): trials.append(netfeed.gen_chain_trial(rng) if k % 3 else netfeed.gen_tree_trial(rng))      # every third one a tee / tree (C03_net_tree_composition)
+    for k in range(n):      # every third one a tee / tree (C03_net_tree_composition), every sixth a tee-rejoin (C03_net_rejoin_composition)
+        trials.append(netfeed.gen_rejoin_trial(rng) if k % 6 == 5 else (netfeed.gen_chain_trial(rng) if k % 3 else netfeed.gen_tree_trial(rng)))
     impl = [netfeed.run_impl(t) for t in trials]
     model = ctx.driver.batch([netfeed.model_request(t) for t in trials]) if ctx.driver and trials else None
-    sets = sink_sets = 0
+    sets = sink_sets = join_sets = 0
     for idx, (t, (obs, handed, pubmid)) in enumerate(zip(trials, impl)):
         L = len(t['topo']['ups'])
         ns = sum(1 for hd in handed if hd[1] > 0); nk = sum(1 for hd in handed if hd[1] == L - 1)
@@ -225,7 +226,11 @@ def chain_campaign(ctx, n):
         shaped = any(b.get('skip') or b.get('empty') or b.get('dnone') or b.get('defer') or b.get('lone') or b['kind'] not in ('src', 'pass') for b in t['topo']['behs'])
         res.note({'feed': 'netchain', 'length': L, 'behs': t['topo']['behs'], 'events': len(t['evs']), 'sets_handed': ns, 'at_sink': nk}, nontrivial=bool(shaped and nk))
         case = {'feed': 'netchain', 'trial': t}
-        orc = netfeed.tree_oracle if t['topo'].get('family') == 'tree' else netfeed.chain_oracle
+        fam_ = t['topo'].get('family')
+        orc = netfeed.tree_oracle if fam_ == 'tree' else (netfeed.rejoin_oracle if fam_ == 'teerejoin' else netfeed.chain_oracle)
+        if fam_ == 'teerejoin':
+            J = next(i for i, u in enumerate(t['topo']['ups']) if len(u) > 1)
+            join_sets += sum(1 for hd in handed if hd[1] == J)
         for key, what in orc(t, obs, handed)[:1]:
             res.violations.append(Violation(key, what, case))
         if model is None: continue
@@ -240,7 +245,16 @@ def chain_campaign(ctx, n):
             res.disagreements.append({'point': f'MQ chain event #{ci} {t["evs"][ci] if ci < len(t["evs"]) else None} vs OF.Net.step', 'case': case,
                                       'impl': o[ci][0] if ci < len(o) else None, 'model': m[ci][0] if ci < len(m) else None})
         else: res.traces_validated += 1
-    res.extra['chain_stats'] = {'trials': len(trials), 'trees': sum(1 for t in trials if t['topo'].get('family') == 'tree'), 'sets_handed': sets, 'at_last_node': sink_sets}
+    # negative control (hypothesis NoSkip of C03_net_rejoin_composition; Lean witness C03_net_rejoin_needs_noskip): a branch that skips
+    wt = netfeed.rejoin_skip_witness()
+    wobs, whanded, _ = netfeed.run_impl(wt)
+    wkeys = [k for k, _ in netfeed.rejoin_oracle(wt, wobs, whanded)]
+    wids = [ident for idx, j, ident, fr in whanded if j == 3]
+    if wkeys != ['net-rejoin-composition'] or wids[:3] != [0, 2, 3]:
+        res.disagreements.append({'point': 'negative witness "a branch of a tee-rejoin skips its second set": the join must be handed the common ids 0, 2, 3, ... and the rejoin oracle must fire (oracle blind or code changed)',
+                                  'case': {'feed': 'netchain-witness', 'trial': wt}, 'impl': {'keys': wkeys, 'ids': wids[:6]}, 'model': {'keys': ['net-rejoin-composition'], 'ids': [0, 2, 3]}})
+    res.extra['chain_stats'] = {'trials': len(trials), 'rejoin_skip_witness_ids': wids[:6], 'trees': sum(1 for t in trials if t['topo'].get('family') == 'tree'),
+                                'rejoins': sum(1 for t in trials if t['topo'].get('family') == 'teerejoin'), 'sets_at_joins': join_sets, 'sets_handed': sets, 'at_last_node': sink_sets}
 
 
 def run(ctx):
